@@ -53,6 +53,16 @@ def gen_cases(tier, seed):
         for phase in ('before', 'during', 'after'):
             for acc in ('join', 'exception', 'wait', 'as_completed'):
                 sig.append({'kind': 'process', 'ending': ['signal', s, phase], 'first': acc})
+    # less usual ways to die: other fatal signals incl. real-time ones without a name, a return value that cannot be sent back,
+    # a hard exit without any report
+    for s in ('SIGHUP', 'SIGUSR1', 'SIGQUIT', 'SIGBUS', 'SIGALRM', 'RT+3', 'RT+11'):
+        for phase in ('during', 'before'):
+            for acc in ('join', 'wait', 'exception'):
+                sig.append({'kind': 'process', 'ending': ['signal', s, phase], 'first': acc})
+    for acc in ('join', 'result', 'exception', 'wait', 'as_completed'):
+        prc.append({'kind': 'process', 'ending': ['return-unpicklable'], 'first': acc})
+        prc.append({'kind': 'process', 'ending': ['os-exit', 7], 'first': acc})
+        thr.append({'kind': 'thread', 'ending': ['return-unpicklable'], 'first': acc})
     # Thread: accessor used in the instant after start() (the Future must exist already)
     for acc in ('wait', 'as_completed', 'exception', 'result'):
         for i in range(6):
@@ -60,11 +70,20 @@ def gen_cases(tier, seed):
     if tier == 'quick':
         rng.shuffle(prc)
         rng.shuffle(sig)
-        cases = thr + prc[:70] + sig[:40]
+        must = [c for c in prc if c['ending'][0] in ('return-unpicklable', 'os-exit')]
+        rare = [c for c in sig if c['ending'][1] not in ('SIGTERM', 'SIGKILL', 'SIGSEGV', 'SIGABRT', 'SIGINT')]
+        usual = [c for c in prc if c['ending'][0] not in ('return-unpicklable', 'os-exit')]
+        cases = thr + usual[:70] + must[:6] + [c for c in sig if c not in rare][:34] + rare[:12]
     else:
         cases = thr + prc + sig
     rng.shuffle(cases)
     return cases
+
+
+def _signum(name):
+    if name.startswith('RT+'):
+        return signal.SIGRTMIN + int(name[3:])
+    return int(getattr(signal, name))
 
 
 def _real(v):
@@ -122,7 +141,7 @@ def run_case(case):
         elif ending[0] == 'signal':
             if ending[2] != 'before':
                 ready.wait(20)
-            os.kill(w.pid, getattr(signal, ending[1]))
+            os.kill(w.pid, _signum(ending[1]))
             obs['signals_delivered'] = 1
 
     wait_fn = mm.wait if is_proc else mt.wait
@@ -204,6 +223,10 @@ def run_case(case):
             expect = ('error', type(ref).__name__, list(ref.args))
         elif ending[0] == 'exit':
             expect = ('value', None) if ending[1] in (None, 0) else ('error', 'SystemExit', [ending[1]])
+        elif ending[0] == 'return-unpicklable' and not is_proc:
+            expect = ('consistent',)  # a thread can return anything
+        elif ending[0] in ('return-unpicklable', 'os-exit'):
+            expect = ('error', None, None)  # the child could not report: some error, consistently, in bounded time
         elif ending[0] == 'terminate' or (ending[0] == 'signal' and ending[1] == 'SIGTERM' and ending[2] != 'after'):
             expect = ('value', None)
         elif ending[0] == 'signal' and ending[2] == 'after':
@@ -268,8 +291,10 @@ def run_case(case):
                 want = ending[1] if isinstance(ending[1], int) else 1
             elif ending[0] == 'terminate':
                 want = -15
+            elif ending[0] == 'os-exit':
+                want = ending[1]
             elif ending[0] == 'signal' and not (ending[1] == 'SIGINT'):
-                want = -int(getattr(signal, ending[1]))
+                want = -_signum(ending[1])
             if want is not None and ec != want:
                 bad('exitcode-disagrees', f'exitcode {ec}, expected {want}')
     if is_proc:
